@@ -32,7 +32,8 @@ theorem gen_httpSigMatch (s : HttpSig) (minor : Nat) (ph : List Hdr) : Gen.httpS
          cases (ph.map fun x => lower x.name).contains a <;> simp_all
      first
      | (simp only [optInt_beq_wild, hv, ha, gen_headersMatch]; done)
-     | (simp only [optInt_beq_wild, optInt_bne_wild, optInt_bne_cast, hv, ha, gen_headersMatch]; grind))
+     | (have hn : ∀ o : Option Nat, o.isNone = !o.isSome := fun o => by cases o <;> rfl
+        simp only [optInt_beq_wild, optInt_bne_wild, optInt_bne_cast, hv, ha, gen_headersMatch, hn]; grind))
 
 theorem gen_findHttpLoop (recs : List HttpRec) (minor : Nat) (ph : List Hdr) (l : List HttpRec) (g : Option HttpRec) :
     Gen.findHttpMatch_loop0 recs minor ph l g = findHttpLoop minor ph l g := by
